@@ -314,9 +314,9 @@ def run_cmd(cmd, cwd, env=None, timeout=None, logfile=None):
     return rc, out, time.time() - t0, wd
 
 
-def kani_cmd(target, harness_full, jobs, json_out, harness_timeout, playback=False):
+def kani_cmd(target, harness_full, jobs, json_out, harness_timeout, playback=False, extra=()):
     cmd = ["cargo", "kani", "-p", "serde_avro_fast", "-Z", "function-contracts", "-Z", "stubbing",
-           "-Z", "unstable-options", "--exact", "--target-dir", target, "--output-format", "terse"]
+           "-Z", "unstable-options", "--exact", "--target-dir", target, "--output-format", "terse"] + list(extra)
     for h in harness_full:
         cmd += ["--harness", h]
     if playback:
@@ -401,15 +401,15 @@ def extract_playback_test(out):
     return best, (n.group(1) if n else None)
 
 
-def native_replay(scratch, target, unit, test_code, test_name, logdir):
+def native_replay(scratch, target, unit, test_code, test_name, logdir, extra=()):
     """Insert the generated unit test into the injected module and run it natively."""
     p = os.path.join(scratch, unit.inject_into)
     txt = open(p).read()
     idx = txt.rstrip().rfind("}")
     txt = txt[:idx] + "\n" + test_code + "\n}\n"
     open(p, "w").write(txt)
-    cmd = ["cargo", "kani", "playback", "-p", "serde_avro_fast", "-Z", "concrete-playback",
-           "--", test_name, "--nocapture"]
+    cmd = ["cargo", "kani", "playback", "-p", "serde_avro_fast", "-Z", "concrete-playback"] + list(extra) + \
+          ["--", test_name, "--nocapture"]
     rc, out, wall, _ = run_cmd(cmd, scratch, env={"CARGO_TARGET_DIR": target + "-playback"}, timeout=900,
                                logfile=os.path.join(logdir, f"playback-{test_name}.log"))
     ran = re.search(r"running (\d+) test", out)
@@ -615,7 +615,7 @@ def run_property(pid, tier, repo=REPO, keep=False, quiet_evidence=False, record_
                 jout = os.path.join(logdir, "kani.json")
                 jobs = int(os.environ.get("VERIF_JOBS", "8" if tier == "quick" else "16"))
                 ht = int(os.environ.get("VERIF_HARNESS_TIMEOUT", "900" if tier == "quick" else "5400"))
-                cmd = kani_cmd(target, list(full), jobs, jout, ht)
+                cmd = kani_cmd(target, list(full), jobs, jout, ht, extra=cfg.get("kani_args", ()))
                 checker_cmds.append(" ".join(cmd[:12]) + " --harness <%d harnesses> -j %d" % (len(full), jobs))
                 rc, out, wall, wd = run_cmd(cmd, scratch, timeout=ht * 4 + 1200,
                                             logfile=os.path.join(logdir, "kani.log"))
@@ -752,7 +752,7 @@ def handle_failure(pid, tier, ent, h, scratch, target, logdir, baseline, known, 
         return
     # counterexample
     fh = unit.full_harness(h)
-    cmd = kani_cmd(target, [fh], 1, None, 0, playback=True)
+    cmd = kani_cmd(target, [fh], 1, None, 0, playback=True, extra=P.PROPS[pid].get("kani_args", ()))
     rc, out, wall, _ = run_cmd(cmd, scratch, timeout=3600, logfile=os.path.join(logdir, f"cex-{h['name']}.log"))
     code, tname = extract_playback_test(out)
     rp = os.path.join(VERIF, "replays", pid)
@@ -767,7 +767,7 @@ def handle_failure(pid, tier, ent, h, scratch, target, logdir, baseline, known, 
         rec["playback_test_name"] = tname
         vals = re.findall(r"//\s*(.+)\n\s*vec!\[([^\]]*)\]", code)
         rec["concrete_values"] = [{"value": a.strip(), "bytes": b.strip()} for a, b in vals][:64]
-        nr = native_replay(scratch, target, unit, code, tname, logdir)
+        nr = native_replay(scratch, target, unit, code, tname, logdir, extra=P.PROPS[pid].get("kani_args", ()))
         rec["native_replay"] = nr
         if nr["failed_natively"]:
             nofail = False
